@@ -55,6 +55,21 @@ NOISE = [" ", "  ", "\t", "\n", "\n\n  ", " /* c */ ", "/**/", "/* two\n   lines
          "/* don't */"]
 
 
+# the ways a definition can refer to an (unknown or cyclic) name: all of them must report a resolve error
+FIELD_USES = {
+    "field_ptr": "struct {q} {{ uint8 lead; {head} *a; }};",
+    "field_ptr_ptr": "struct {q} {{ {head} * *a; uint8 t; }};",
+    "field_array": "struct {q} {{ {head} a[2]; }};",
+    "struct_field": "struct {q} {{ struct {head} a; }};",
+    "struct_field_ptr": "struct {q} {{ uint8 lead; struct {head} *a; }};",
+    "struct_field_ptr_array": "struct {q} {{ struct {head} *a[2]; }};",
+    "union_field_ptr": "struct {q} {{ union {head} *a; }};",
+    "typedef": "typedef {head} {q}p;",
+    "typedef_struct_ptr": "typedef struct {head} *{q}p;",
+    "enum_base": "enum {q} : {head} {{ QA{q} }};",
+}
+
+
 # conflicting re-declarations of an existing type name NAME in the other syntactic forms that register a name
 REDECL_FORMS = {
     "typedef_struct_tag": "typedef struct {name} {{ uint8 z; }} {fresh};",
@@ -260,9 +275,9 @@ def gen_case(rng: random.Random, tier: str):
             alias_ops.append({"op": "redeclare_other", "pos": pos, "name": rng.choice(f["names"]), "target": rng.choice(["double", "int128", "float16"]),
                               "frag": frags.index(f), "via": via})
         elif r < 0.75:
-            alias_ops.append({"op": "cycle", "pos": pos, "len": rng.randint(1, 4), "use": rng.choice(["resolve", "attr", "field", "sizeof"])})
+            alias_ops.append({"op": "cycle", "pos": pos, "len": rng.randint(1, 4), "use": rng.choice(["resolve", "attr", "field", "sizeof", *FIELD_USES])})
         elif r < 0.9:
-            alias_ops.append({"op": "dangling", "pos": pos, "hops": rng.randint(0, 3), "use": rng.choice(["resolve", "attr", "field"])})
+            alias_ops.append({"op": "dangling", "pos": pos, "hops": rng.randint(0, 3), "use": rng.choice(["resolve", "attr", "field", *FIELD_USES])})
         elif r < 0.95:
             alias_ops.append({"op": "long_chain", "pos": pos, "len": rng.randint(2, 12)})
         else:
@@ -468,6 +483,9 @@ def run_history(case, perturbed, stats):
                         from dissect.cstruct.expression import Expression
 
                         got = Expression(cs, f"sizeof({head})").evaluate()
+                    elif use in FIELD_USES:
+                        cs.load(FIELD_USES[use].format(q=f"Q{base}", head=head), **kw)
+                        got = "loaded"
                     else:
                         cs.load(f"struct Q{base} {{ {head} a; }};", **kw)
                         got = "loaded"
@@ -490,6 +508,7 @@ def run_history(case, perturbed, stats):
                 for nme in names:
                     cs.typedefs.pop(nme, None)
                 cs.typedefs.pop(f"Q{base}", None)
+                cs.typedefs.pop(f"Q{base}p", None)
 
     for gi, g in enumerate(groups):
         alias_ops_at(gi)
